@@ -313,7 +313,8 @@ def _base_setbases_post(c):
                 c.h('regbases')[z3.Const('sb_o', Obj)] == c.h0('regbases')[z3.Const('sb_o', Obj)],
                 c.h('ro')[z3.Const('sb_o', Obj)] == c.h0('ro')[z3.Const('sb_o', Obj)])))),
             ('notified-last', c.h('$notified')[s] == c.h0('$notified')[s] + 1),
-            ('only-caches-change', only_caches_change(c))]
+            ('only-caches-change', only_caches_change(c)),
+            ('generation-bumped-exactly-once', c.h('_generation')[s] == c.h0('_generation')[s] + 1)]
 
 
 reg.add(Proc(A + 'BaseAdapterRegistry._setBases', [('self', OBJ), ('bases', SEQO)], source='adapter.py:BaseAdapterRegistry._setBases',
@@ -356,7 +357,7 @@ def _ar_setbases_post(c):
     old = old_bases(c)
     new = c.a.bases
     r = z3.Const('sq_r', Obj)
-    return _base_setbases_post(c)[:4] + [
+    return _base_setbases_post(c)[:4] + _base_setbases_post(c)[5:] + [
         ('linked-to-every-new-base', ForAllP([j], z3.Implies(z3.And(0 <= j, j < L(new)), subs_of_reg(c, new[j])[c.a.self] != ABSENT),
                                                patterns=[new[j]])),
         ('unlinked-from-every-dropped-base', ForAllP([j], z3.Implies(
@@ -416,3 +417,49 @@ reg.add(Proc(A + 'AdapterRegistry._setBases', [('self', OBJ), ('bases', SEQO)], 
              modifies=['regbases', 'ro', '_generation', '$dict', '$log', '$notified'],
              requires=_ar_setbases_pre, ensures=_ar_setbases_post,
              loops={'L0': Loop(_ar_L0), 'L1': Loop(_ar_L1)}))
+
+
+# ------------------------------------------------------------------ (re-)initialisation: __init__ is also what rebuild() runs on a LIVE registry
+def _fresh_container(kind):
+    def handler(ex, node, st):
+        r = ex.fresh_ref(st, kind)
+        if kind == 'list':
+            ex.set_listval(st, r, Empty(SeqO))
+            return [(st, V(LISTO, r))]
+        ex.set_dictval(st, r, EMPTYMAP)
+        st.assume(z3.Not(cachedict(r)))
+        return [(st, V(DICT, r))]
+    return handler
+
+
+def _create_lookup(ex, node, st):
+    """self._createLookup(): a new lookup object is installed (its caches are empty; C05_cache) -- no effect on the generation"""
+    r = ex.fresh_ref(st, 'lookup')
+    ex.write_field(st, ex.args['self'].t, '_v_lookup', vobj(r))
+    return [(st, VNONE)]
+
+
+def _assign_bases(ex, tgt, st, recv, v):
+    """self.__bases__ = bases: the property setter runs _setBases (contract above; virtual for AdapterRegistry)"""
+    args = {'self': recv, 'bases': ex.coerce(v, SEQO, st)}
+    res = ex.apply_contract(tgt, st, reg.procs[A + 'BaseAdapterRegistry._setBases'], args)
+    assert len(res) == 1 and res[0][0] is st
+
+
+def _init_post(c):
+    s = c.a.self
+    return [('the-generation-counter-continues', c.h('_generation')[s] == c.h0('_generation')[s] + 1),
+            ('fresh-empty-containers', z3.And(
+                z3.Not(c.h0('$alloc')[c.h('_adapters')[s]]), z3.Not(c.h0('$alloc')[c.h('_subscribers')[s]]), z3.Not(c.h0('$alloc')[c.h('_provided')[s]]),
+                L(c.h('$list')[c.h('_adapters')[s]]) == 0, L(c.h('$list')[c.h('_subscribers')[s]]) == 0, c.h('$dict')[c.h('_provided')[s]] == EMPTYMAP)),
+            ('bases-recorded-and-order-computed', z3.And(c.h('regbases')[s] == box_seq(c.a.bases), c.h('ro')[s] == C3ORDER(c.h('regbases'), s))),
+            ('notified', c.h('$notified')[s] == c.h0('$notified')[s] + 1)]
+
+
+reg.add(Proc(A + 'BaseAdapterRegistry.__init__', [('self', OBJ), ('bases', SEQO)], source='adapter.py:BaseAdapterRegistry.__init__',
+             calls={'self._sequenceType': _fresh_container('list'), 'self._providedType': _fresh_container('dict'),
+                    'self._createLookup': _create_lookup},
+             setattr_={'__bases__': _assign_bases},
+             modifies=['_adapters', '_subscribers', '_provided', '_v_lookup', 'regbases', 'ro', '_generation', '$dict', '$list', '$alloc',
+                       '$log', '$notified'],
+             ensures=_init_post))
